@@ -16,7 +16,9 @@ CONSTANTS Ovh,                \* set of overhang symbols
           RCf,                \* involution Ovh -> Ovh (reverse complement); fixed points = palindromes
           MaxMods,
           RestoreOnFailure,   \* TRUE = the design (inputs re-referenced on every exit); FALSE = negative model
-          Faults              \* set of step numbers at which an exception may be injected (0 = none)
+          Faults,             \* set of step numbers at which an exception may be injected (0 = none)
+          PalSelf             \* FALSE = the design; TRUE = negative model: a palindromic start overhang is taken for a
+                              \* duplicate of itself (defect D9 of the pinned tree)
 RC(o) == RCf[o]
 ModT == [s : Ovh, e : Ovh]
 
@@ -78,7 +80,7 @@ MapInsert == /\ pc = "map" /\ Tick
              /\ UNCHANGED <<vec, mods, faultAt, nxt, chain, deref>>
 
 RcCheck == /\ pc = "rc" /\ Tick
-           /\ IF \E j, k \in 1..Len(map) : j # k /\ map[k][1] = RC(map[j][1]) THEN Fail(<<"DuplicateModules">>)
+           /\ IF \E j, k \in 1..Len(map) : (PalSelf \/ j # k) /\ map[k][1] = RC(map[j][1]) THEN Fail(<<"DuplicateModules">>)
               ELSE pc' = "deref" /\ UNCHANGED outcome
            /\ UNCHANGED <<vec, mods, map, chain, faultAt, deref, nxt>>
 
